@@ -62,13 +62,19 @@ func viaPipeline(base string, i int, in input, mode string) (rec, error) {
 	var bal []string
 	var ready []string
 	n := 0
+	// every second case uses a distinct label name per group, pods carrying only the label of their own group
+	distinct := i%2 == 1
 	for g := range in.W {
-		bal = append(bal, fmt.Sprintf("group=%s=%d", groups[g], in.W[g]))
+		labelName := "group"
+		if distinct {
+			labelName = "lbl" + groups[g]
+		}
+		bal = append(bal, fmt.Sprintf("%s=%s=%d", labelName, groups[g], in.W[g]))
 		for k := 0; k < in.L[g]; k++ {
 			n++
 			name := fmt.Sprintf("pod-%s-%d", groups[g], k)
 			ip := fmt.Sprintf("10.%d.0.%d", g+1, k+1)
-			p.Apply(kobj.Pod("d", name, ip, map[string]string{"group": groups[g], "app": "app"}, false))
+			p.Apply(kobj.Pod("d", name, ip, map[string]string{labelName: groups[g], "app": "app"}, false))
 			ready = append(ready, ip+":"+name)
 		}
 	}
